@@ -187,8 +187,13 @@ class Builder:
     def context(self):
         """enum constants and namespace-scope constants the lowered functions refer to, extracted from the same TUs"""
         out = []
+        seen_enums = set()
         for (src, xf), enums in self.need_enums.items():
-            out.append(ctx.emit_enums(src, enums, xf))
+            # the same enum may be referred to from several TUs: define it once
+            todo = {et: names for et, names in enums.items() if et not in seen_enums}
+            seen_enums.update(todo)
+            if todo:
+                out.append(ctx.emit_enums(src, todo, xf))
         done = set()
         pending = [(k, g, rd) for k, gs in self.need_globals.items() for g, rd in gs.items()]
         while pending:
